@@ -411,8 +411,81 @@ def _r5_headers_by_tokens(ctx):
     return True
 
 
+def _identifier_by_interpretation(ctx):
+    """tagPysamRead is evaluated on every presence pattern of the identifying tags (BC, RX, aA and their quality tags): with a corrected index the
+    molecular identifier handed to the record is BC + RX + aA (absent optional parts left out, nothing after them dropped), without one the record is bulk (no
+    identifier).  None when the method is outside the interpreted subset."""
+    import itertools
+    from ..consteval import run_function, Raised
+    t = ctx.fn(BASEDEMUX, 'TaggedRecord.tagPysamRead')
+    mod = ctx.ix.module(BASEDEMUX)
+    mc = {k: v for k, v in module_consts(mod).items() if v is not TOP}
+    vals = {'BC': 'ACGT', 'RX': 'TTG', 'aA': 'GGCC', 'QT': 'eeee', 'RQ': 'aaa', 'aa': 'GGCA'}
+    n = 0
+    try:
+        for present in itertools.product((False, True), repeat=len(vals)):
+            tags = {k: v for (k, v), p_ in zip(vals.items(), present) if p_}
+            tags['LY'] = 'lib'
+            env = dict(mc)
+            env['self.tags'] = dict(tags)
+            env['self.tagDefinitions'] = {}
+            rd = {}
+
+            def hook(ev, call, env_, rd=rd):
+                d = dotted(call.func) or ''
+                a = [ev.ev(x, env_) for x in call.args]
+                if d == 'self.has_tag':
+                    return a[0] in env_['self.tags']
+                if d == 'self.addTagByTag':
+                    env_['self.tags'][a[0]] = a[1] if isinstance(a[1], str) else str(a[1])
+                    return None
+                if d.endswith('hamming_distance'):
+                    return sum(1 for x, y in zip(a[0], a[1]) if x != y)
+                if d.endswith('.set_tag'):
+                    rd[a[0]] = a[1]
+                    return None
+                if d.endswith('.has_tag'):
+                    return a[0] in rd
+                if d.endswith('.get_tag'):
+                    return rd[a[0]]
+                return NotImplemented
+            out = {}
+            try:
+                run_function(t, ['<self>', '<read>'], env=env, call_hook=hook, out_scope=out, is_subclass=ctx.ix.is_subclass_name)
+            except Raised as r_:
+                if r_.name == 'ValueError':
+                    continue        # QM / MI length check: loud
+                return None
+            n += 1
+            got = rd.get('MI')
+            want = ''.join(tags[k] for k in ('BC', 'RX', 'aA') if k in tags) if 'aA' in tags else None
+            if got != want:
+                return (False, n, {'tags of the record': tags, 'MI written': got, 'MI expected (BC + RX + corrected index)': want})
+    except Unfoldable:
+        return None
+    except Exception:
+        return None
+    return (True, n, None)
+
+
 def _r5_identifier(ctx):
     t = ctx.fn(BASEDEMUX, 'TaggedRecord.tagPysamRead')
+    res = _identifier_by_interpretation(ctx)
+    if res is not None:
+        ok, n, wit = res
+        ctx.counters['interpreted_cases'] = ctx.counters.get('interpreted_cases', 0) + n
+        ctx.emit('C04-R5', ok, BASEDEMUX, t, f'tagPysamRead evaluated on {n} presence patterns of BC / RX / aA / QT / RQ / aa: ' + ('the identifier is BC + RX + corrected index whenever the index is known, none otherwise'
+                 if ok else f'{wit}'), key='MI-by-interpretation', witness=wit, what='tagPysamRead: the molecular identifier is not barcode + UMI + corrected index for some combination of present tags')
+    if res is None:
+        _r5_identifier_structural(ctx, t)
+    sm = [c for c in walk_no_nested(t) if isinstance(c, ast.Call) and isinstance(c.func, ast.Attribute) and c.func.attr == 'addTagByTag' and c.args and isinstance(c.args[0], ast.Constant) and c.args[0].value == 'SM']
+    sm.sort(key=lambda c: c.lineno)
+    first = sm[0] if sm else t
+    ctx.emit('C04-R5', bool(sm) and "self.tags['LY']" in src(sm[0].args[1]).replace('"', "'") and "self.tags['bi']" in src(sm[0].args[1]).replace('"', "'") and '}_{' in src(sm[0].args[1]),
+             BASEDEMUX, first, f'sample = {src(sm[0].args[1]) if sm else None}', key='SM-format')
+
+
+def _r5_identifier_structural(ctx, t):
     lst = [s for s in t.body if isinstance(s, ast.Assign) and isinstance(s.value, ast.List) and all(isinstance(e, ast.Tuple) for e in s.value.elts) and s.value.elts]
     order = [e.elts[0].value for e in lst[0].value.elts if isinstance(e.elts[0], ast.Constant)] if lst else []
     req = [(e.elts[0].value, src(e.elts[2])) for e in lst[0].value.elts] if lst else []
@@ -427,11 +500,6 @@ def _r5_identifier(ctx):
     acc = [s for s in walk_no_nested(t) if isinstance(s, ast.AugAssign) and src(s.target) == miv and
            any(tdefs.get(src(s.value), src(s.value)).replace('"', "'") in (f'self.tags[{lv_}]', f'self.tags.get({lv_})') for lv_ in loopv)]
     ctx.emit('C04-R5', len(mi) == 1 and len(acc) == 1, BASEDEMUX, mi[0] if mi else t, 'MI is the concatenation of those tag values in order', key='MI-concatenation')
-    sm = [c for c in walk_no_nested(t) if isinstance(c, ast.Call) and isinstance(c.func, ast.Attribute) and c.func.attr == 'addTagByTag' and c.args and isinstance(c.args[0], ast.Constant) and c.args[0].value == 'SM']
-    sm.sort(key=lambda c: c.lineno)
-    first = sm[0] if sm else t
-    ctx.emit('C04-R5', bool(sm) and "self.tags['LY']" in src(sm[0].args[1]).replace('"', "'") and "self.tags['bi']" in src(sm[0].args[1]).replace('"', "'") and '}_{' in src(sm[0].args[1]),
-             BASEDEMUX, first, f'sample = {src(sm[0].args[1]) if sm else None}', key='SM-format')
 
 
 @rule('C04', 'C04-R6', 'a header too long to be stored is refused loudly: the length test dominates the return of asFastq and raises')
@@ -641,3 +709,48 @@ META = {
 
 from . import shared as _shared
 _shared.register('C04', 'C04')
+
+
+@rule('C04', 'C04-R11', 'every alignment of a fragment is decoded: in the loop of QueryNameFlagger.digest over the mates a missing mate (None) only skips that slot - '
+                        'no path on which the current mate is None leaves the loop or the method - and a present mate whose name still carries the encoded fields '
+                        'reaches the decoder (fromTaggedBamRecord ... tagPysamRead) of a record built for it')
+def r11(ctx):
+    from ..cfg import eval3, UNK
+    from .slots import UBT
+    f = ctx.fn(UBT, 'QueryNameFlagger.digest')
+    loops = [l for l in walk_no_nested(f) if isinstance(l, ast.For) and isinstance(l.target, ast.Name)]
+    loops = [l for l in loops if any(isinstance(c, ast.Call) and isinstance(c.func, ast.Attribute) and c.func.attr == 'tagPysamRead' for c in walk_no_nested(l))]
+    ctx.need('C04-R11', len(loops), 1, 'loop over the mates that decodes the read name')
+    loop = loops[0]
+    v = loop.target.id
+    cfg = CFG(loop.body, exceptions=False)
+    for none in (True, False):
+        def atoms(e, none=none):
+            t = src(e)
+            if t == f'{v} is None':
+                return none
+            if t in (f'{v} is not None', v):
+                return not none
+            if not none and isinstance(e, ast.Call) and isinstance(e.func, ast.Attribute) and e.func.attr in ('has_tag', 'startswith'):
+                return False        # not yet tagged, current name format
+            return UNK
+
+        def step(state, node, label, atoms=atoms):
+            if node.kind == 'test' and label in ('true', 'false') and isinstance(node.ast, (ast.If, ast.While)):
+                val = eval3(node.ast.test, {}, atoms)
+                if val is not UNK and bool(val) != (label == 'true'):
+                    return None
+            calls = tuple(c.func.attr for c in node_calls(node) if isinstance(c.func, ast.Attribute))
+            return state + calls
+        bad = None
+        n = 0
+        for pth, calls in cfg.paths(state0=(), step=step, max_paths=20000):
+            n += 1
+            term = cfg.nodes[pth[-1][0]].info
+            if none and term in ('return', 'break', 'raise'):
+                bad = f'with a missing mate in the current slot the loop is left by `{term}`: the mates in the later slots are never decoded (path: {cfg.fmt_path(pth)[-300:]})'
+            if not none and term in ('fall', 'continue') and not ('fromTaggedBamRecord' in calls and 'tagPysamRead' in calls):
+                bad = f'a present, not yet decoded mate reaches the end of the iteration without fromTaggedBamRecord + tagPysamRead (path: {cfg.fmt_path(pth)[-300:]})'
+        ctx.counters['paths_enumerated'] += n
+        ctx.emit('C04-R11', bad is None, UBT, loop, (f'{n} paths with the current mate ' + ('missing: all go on with the next slot' if none else 'present and undecoded: all decode it')) if bad is None else bad,
+                 key='digest:missing-mate-skipped' if none else 'digest:present-mate-decoded', what='QueryNameFlagger.digest: a mate of the fragment is not decoded')
